@@ -106,3 +106,10 @@ mod test {
         assert_eq!(cmr[0], 0x70);
     }
 }
+
+#[cfg(feature = "verif-hooks")]
+impl CountMinRow {
+    pub(crate) fn verif_counters(&self) -> Vec<u8> {
+        (0..(self.0.len() as u64 * 2)).map(|i| self.get(i)).collect()
+    }
+}
